@@ -138,6 +138,29 @@ def variants(path, per_seed=3):
 _NO_NESTED_VARIANTS = False
 
 
+def _variants_task(path):
+    return path, _compute_variants(path, 3)
+
+
+def warm_variants():
+    """Derive the variants of every class at once, on a fork pool (the children are thrown away, so whatever the
+    derivation does to process-global state stays out of this process)."""
+    if _NO_NESTED_VARIANTS:
+        return
+    todo = [path for path in class_paths() if path not in _VARIANTS]
+    for path in list(todo):
+        if not objects(path):
+            _VARIANTS[path] = []
+            todo.remove(path)
+    if len(todo) < 8:
+        return
+    import multiprocessing
+    from concurrent.futures import ProcessPoolExecutor
+    with ProcessPoolExecutor(max_workers=core.jobs(), mp_context=multiprocessing.get_context('fork')) as pool:
+        for path, found in pool.map(_variants_task, todo, chunksize=4):
+            _VARIANTS[path] = found
+
+
 def _compute_variants(path, per_seed):
     global _NO_NESTED_VARIANTS  # pylint: disable=global-statement
     _NO_NESTED_VARIANTS = True
@@ -170,6 +193,10 @@ def _compute_variants(path, per_seed):
         # every variable-length field (bytes, text, list, vector) of the message emptied, one at a time: the
         # smallest form of the message a peer can send
         for data in _emptied_fields(cls, raw):
+            if data not in out and data != raw:
+                out.append(data)
+        # every optional field that is unset given a value, one at a time
+        for data in _filled_optionals(cls, raw):
             if data not in out and data != raw:
                 out.append(data)
         # inputs that embed one of the repo's test certificates: the same input with each of the other certificates
@@ -240,6 +267,38 @@ def _other_certificates(raw):
                         data[pos:pos + size] = (value + delta).to_bytes(size, 'big')
             out.append(bytes(data))
         break
+    return out
+
+
+def _filled_optionals(cls, raw, limit=6):
+    import attr
+    import datetime
+    from simverif.props import c13
+    out = []
+    try:
+        fields = [f for f in attr.fields(type(cls.parse_immutable(raw)[0])) if not f.name.startswith('_')]
+    except Exception:  # not an attrs class  # pylint: disable=broad-except
+        return out
+    for field in fields:
+        if len(out) >= limit:
+            break
+        try:
+            obj = cls.parse_immutable(raw)[0]
+            if getattr(obj, field.name) is not None:
+                continue
+            declared = c13._declared_type(field.validator)  # pylint: disable=protected-access
+            if declared is datetime.datetime:
+                value = datetime.datetime(2030, 1, 2, 3, 4, 5, tzinfo=datetime.timezone.utc)
+            elif declared in (int, str, bytes):
+                value = {int: 1, str: 'x', bytes: b'x'}[declared]
+            else:
+                continue
+            setattr(obj, field.name, value)
+            data = bytes(obj.compose())
+            cls.parse_exact_size(data)
+        except Exception:  # pylint: disable=broad-except
+            continue
+        out.append(data)
     return out
 
 
